@@ -141,11 +141,29 @@ class Agg(Acc):
 _MOD = None
 
 
+def _raised_in_library(tb):
+    """True if the innermost frames of the traceback lie in the library under test (not in the checker)."""
+    lib = os.path.join(os.environ.get('VERIF_REPO', '/repo'), 'segno') + os.sep
+    frames = traceback.extract_tb(tb)
+    return bool(frames) and frames[-1].filename.startswith(lib)
+
+
 def _work(chunk):
     acc = Acc()
     try:
         for case in chunk:
-            _MOD.run_case(case, acc)
+            try:
+                _MOD.run_case(case, acc)
+            except Exception as e:
+                # an exception escaping from the LIBRARY at a place where the check does not expect one is a finding about the
+                # library (reported as a violation of the property being explored), not a defect of the checker
+                if not _raised_in_library(e.__traceback__):
+                    raise
+                last = traceback.extract_tb(e.__traceback__)[-1]
+                acc.violation('unexpected-exception/%s' % type(e).__name__,
+                              'the library raised %s (%s) at %s:%d while the check was exploring case %r'
+                              % (type(e).__name__, str(e)[:80], os.path.basename(last.filename), last.lineno, enc(case) if len(repr(case)) < 300 else '...'),
+                              case)
     except BaseException:
         return ('error', traceback.format_exc(), None)
     return ('ok', None, acc)
